@@ -1,7 +1,11 @@
 (* Model/KnownC01.v - Known_C01: the computable classes of (base, input) on which the pinned code is
    known to deviate from the WHATWG URL Standard (DESIGN.md section 9; known_findings.json).
      class 1  the file scheme is involved (the scheme of the input, or of the base of a scheme-less input
-              that is not empty and does not start with '?' or '#');
+              that is not empty and does not start with '?' or '#') - EXCEPT "file:" R with no base or a
+              base whose scheme is not file, with R inside the recogniser k_file_ok of the proved file
+              class (Proofs/C01_EqFile.v file_class_ok; Proofs/C01_EqFileCover.v: k_file_ok R = true ->
+              file_class_ok R = true).  `known_c01_v1` is the predicate before this narrowing (class 1 =
+              the whole file scheme);
      class 2  a ".." (in any spelling) meets a drive-letter-shaped last segment in the path the Standard's
               path state builds (F-C01-9: parser.rs never pops such a segment, in any scheme);
      class 3  authority of a non-special URL: a port number <= 65535 directly followed by '\' (F-C01-8);
@@ -219,8 +223,8 @@ Definition k_relative (sp : bool) (b : url) (rest : list N) : N :=
 
 Definition k_bare_ref (rest : list N) : bool := match rest with [] => true | c :: _ => k_qh c end.
 
-(* 0 = not known; 1..4 = class *)
-Definition known_c01 (base : option url) (input : list N) : N :=
+(* 0 = not known; 1..4 = class; class 1 = the whole file scheme (before the narrowing below) *)
+Definition known_c01_v1 (base : option url) (input : list N) : N :=
   let t := cleaned input in
   let sch := leading_scheme t in
   let bscheme := match base with Some b => Some (b_scheme b) | None => None end in
@@ -240,3 +244,94 @@ Definition known_c01 (base : option url) (input : list N) : N :=
         if sp && list_eqb s (b_scheme b) && negb (k_two_sl rest) then k_relative sp b rest
         else k_absolute sp rest
     end.
+
+(* ---------------------------------------------------------------------------------------------
+   the file scheme: the recogniser of the proved file class on the raw text.  The Standard's file path
+   state (both Windows-drive-letter quirks: ".." does not pop a sole normalized drive letter, a drive
+   letter that becomes the first segment is normalized to "X:") run on RAW segments - the percent-encoding
+   of the path set is invisible to every test made here (Proofs/C01_EqFileCover.v) *)
+Definition k_nil {A : Type} (l : list A) : bool := match l with [] => true | _ => false end.
+Definition kf_shorten (P : list (list N)) : list (list N) :=
+  match P with
+  | [p0] => if is_normalized_wdl p0 then P else removelast P
+  | _ => removelast P
+  end.
+Definition kf_norm (P : list (list N)) (B : list N) : list N :=
+  if k_nil P && is_wdl B then match B with a :: _ :: r => a :: 58 :: r | _ => B end else B.
+Definition kf_fin (P : list (list N)) (B : list N) (sep : bool) : list (list N) :=
+  if is_double_dot B then (if sep then kf_shorten P else kf_shorten P ++ [[]])
+  else if is_single_dot B then (if sep then P else P ++ [[]])
+  else P ++ [kf_norm P B].
+(* the segment list the Standard's path state builds on the text t (up to '?' / '#') *)
+Fixpoint kf_path (t : list N) (P : list (list N)) (B : list N) : list (list N) :=
+  match t with
+  | [] => kf_fin P B false
+  | c :: r => if k_sl c then kf_path r (kf_fin P B true) []
+              else if k_qh c then kf_fin P B false
+              else kf_path r P (B ++ [c])
+  end.
+Definition kf_last_wdl (P : list (list N)) : bool := match rev P with s :: _ => k_wdl s | [] => false end.
+Definition kf_pref (B : list N) : bool :=
+  match B with a :: b :: _ => is_alpha a && ((b =? 58) || (b =? 124)) | _ => false end.
+(* no ".." on a drive-letter-shaped last segment (F-C01-5/9); no drive letter as the first segment of a URL
+   with a host (F-C01-1) *)
+Definition kf_fin_ok (hh : bool) (P : list (list N)) (B : list N) : bool :=
+  negb (is_double_dot B && kf_last_wdl P) && negb (hh && k_nil P && is_wdl B).
+(* ... and the first segment does not go on after a drive-letter prefix (F-C01-7) *)
+Fixpoint kf_path_ok (hh : bool) (t : list N) (P : list (list N)) (B : list N) : bool :=
+  match t with
+  | [] => kf_fin_ok hh P B
+  | c :: r => if k_sl c then kf_fin_ok hh P B && kf_path_ok hh r (kf_fin P B true) []
+              else if k_qh c then kf_fin_ok hh P B
+              else negb (k_nil P && kf_pref B) && kf_path_ok hh r P (B ++ [c])
+  end.
+(* parser.rs:1377 on the segment list: leading empty segments are dropped *)
+Fixpoint kf_strip (P : list (list N)) : list (list N) :=
+  match P with
+  | [] => [[]]
+  | s :: r => if k_nil s then kf_strip r else P
+  end.
+Fixpoint kf_segs_eqb (a b : list (list N)) : bool :=
+  match a, b with
+  | [], [] => true
+  | x :: a', y :: b' => list_eqb x y && kf_segs_eqb a' b'
+  | _, _ => false
+  end.
+(* the model's path loop on tm (has_host = hh) stays inside the proved part and its list, leading empty
+   segments dropped, is the list of the Standard's path state on ts *)
+Definition kf_ok (hh : bool) (tm ts : list N) : bool :=
+  kf_path_ok hh tm [] [] && kf_segs_eqb (kf_strip (kf_path tm [] [])) (kf_path ts [] []).
+Definition kf_path_text (X : list N) : list N := match X with c :: r => if k_sl c then r else X | [] => [] end.
+(* the text R after "file:" *)
+Definition k_file_ok (R : list N) : bool :=
+  match R with
+  | c1 :: R1 =>
+      if k_sl c1 then
+        match R1 with
+        | c2 :: T =>
+            if k_sl c2 then
+              let h := k_apart true T in
+              let X := k_arest true T in
+              negb (is_wdl h) && kf_ok false X (kf_path_text X)
+              && (k_nil h || kf_ok true (kf_path_text X) (kf_path_text X))
+            else kf_ok false R1 R1
+        | [] => kf_ok false R1 R1
+        end
+      else kf_ok false R R
+  | [] => kf_ok false R R
+  end.
+
+(* "file:" R with no base or a base with another scheme, R inside the proved class *)
+Definition k_file_narrow (base : option url) (input : list N) : bool :=
+  let t := cleaned input in
+  match leading_scheme t with
+  | Some s => list_eqb s s_file
+              && (match base with Some b => negb (list_eqb (b_scheme b) s_file) | None => true end)
+              && k_file_ok (after_colon t)
+  | None => false
+  end.
+
+(* Known_C01.  0 = not known; 1..4 = class *)
+Definition known_c01 (base : option url) (input : list N) : N :=
+  let k := known_c01_v1 base input in
+  if (k =? 1) && k_file_narrow base input then 0 else k.
